@@ -639,9 +639,9 @@ pub fn run(run: &mut Run) -> Result<(), String> {
                 plan.lines = Some(b(3, 2));
                 plan.raws.push((Box::new(DoubleCheck { kings: vec![4, 27, 0, 60], own_kinds: NONKING.to_vec() }), b(0, 0)));
                 plan.raws.push((Box::new(TwoLines { enemy_kings: vec![35, 60, 63] }), b(1, 0)));
-                plan.start = Some(b(4, 2));
+                plan.start = Some(b(5, 1));
                 plan.mid = Some(b(3, 2));
-                plan.r960 = Some(b(2, 1));
+                plan.r960 = Some(b(3, 0));
                 plan.clock = Some(b(3, 1));
                 plan.dfrc = Some((0..960, 1, b(if prop == "C01" { 1 } else { 0 }, 0)));
                 plan.raws.push((Box::new(ThreeMen { bk: None }), b(1, 1)));
@@ -668,7 +668,7 @@ pub fn run(run: &mut Run) -> Result<(), String> {
                 plan.lines = Some(b(3, 2));
                 plan.raws.push((Box::new(TwoLines { enemy_kings: vec![35, 60, 63] }), b(1, 1)));
                 plan.raws.push((Box::new(DoubleCheck { kings: vec![4, 27], own_kinds: vec![Kind::P, Kind::N, Kind::R] }), b(1, 0)));
-                plan.start = Some(b(4, 2));
+                plan.start = Some(b(5, 1));
                 plan.mid = Some(b(3, 2));
                 plan.r960 = Some(b(2, 1));
                 plan.clock = Some(b(3, 2));
